@@ -95,16 +95,16 @@ impl Json {
 }
 
 struct SerializableContext<'a, 'b, Span, N>(
-    &'b crate::subscribe::Context<'a, Span>,
+    &'b crate::registry::SpanRef<'a, Span>,
     std::marker::PhantomData<N>,
 )
 where
-    Span: Collect + for<'lookup> crate::registry::LookupSpan<'lookup>,
+    Span: for<'lookup> crate::registry::LookupSpan<'lookup>,
     N: for<'writer> FormatFields<'writer> + 'static;
 
 impl<Span, N> serde::ser::Serialize for SerializableContext<'_, '_, Span, N>
 where
-    Span: Collect + for<'lookup> crate::registry::LookupSpan<'lookup>,
+    Span: for<'lookup> crate::registry::LookupSpan<'lookup>,
     N: for<'writer> FormatFields<'writer> + 'static,
 {
     fn serialize<Ser>(&self, serializer_o: Ser) -> Result<Ser::Ok, Ser::Error>
@@ -114,10 +114,8 @@ where
         use serde::ser::SerializeSeq;
         let mut serializer = serializer_o.serialize_seq(None)?;
 
-        if let Some(leaf_span) = self.0.lookup_current() {
-            for span in leaf_span.scope().from_root() {
-                serializer.serialize_element(&SerializableSpan(&span, self.1))?;
-            }
+        for span in self.0.scope().from_root() {
+            serializer.serialize_element(&SerializableSpan(&span, self.1))?;
         }
 
         serializer.end()
@@ -235,10 +233,7 @@ where
 
             let current_span = if self.format.display_current_span || self.format.display_span_list
             {
-                event
-                    .parent()
-                    .and_then(|id| ctx.span(id))
-                    .or_else(|| ctx.lookup_current())
+                ctx.parent_span()
             } else {
                 None
             };
@@ -277,11 +272,13 @@ where
                 }
             }
 
-            if self.format.display_span_list && current_span.is_some() {
-                serializer.serialize_entry(
-                    "spans",
-                    &SerializableContext(&ctx.ctx, format_field_marker),
-                )?;
+            if self.format.display_span_list {
+                if let Some(ref span) = current_span {
+                    serializer.serialize_entry(
+                        "spans",
+                        &SerializableContext(span, format_field_marker),
+                    )?;
+                }
             }
 
             if self.display_thread_name {
